@@ -116,6 +116,7 @@ type WF struct {
 	Dirs        []string // directories that exist before the run (absolute)
 	RunTo       []string
 	RunToMode   int  // 0 names, 1 regex, 2 procs
+	RunToNone   bool // RunTo* is called with a target set that selects no process at all
 	FullLogging bool // do not lower the log level: NewWorkflow sets up audit logging to stdout + file
 	// Rounds: further runs of the same workflow inside the SAME process (a driver
 	// program that builds and runs it again): before round i the listed files
@@ -138,6 +139,9 @@ func (w *WF) Describe() string {
 	fmt.Fprintf(&b, "workflow %s maxTasks=%d bufsize=%d", w.Name, w.MaxTasks, w.Bufsize)
 	if len(w.RunTo) > 0 {
 		fmt.Fprintf(&b, " RunTo(mode %d)=%v", w.RunToMode, w.RunTo)
+	}
+	if w.RunToNone {
+		fmt.Fprintf(&b, " RunTo(mode %d) with an EMPTY target set", w.RunToMode)
 	}
 	b.WriteString("\n")
 	var srcs []string
